@@ -177,6 +177,8 @@ def _ev(sv, env):
     if t == "cmp":
         a, b = ev(sv[2], env), ev(sv[3], env)
         try:
+            if sv[1] in ("In", "NotIn"):
+                return (a in b) == (sv[1] == "In")
             return {"Eq": a == b, "NotEq": a != b, "Lt": a < b, "LtE": a <= b, "Gt": a > b, "GtE": a >= b, "Is": a is b or a == b, "IsNot": not (a is b or a == b)}[sv[1]]
         except TypeError as e:
             raise CannotEval(str(e))
@@ -229,6 +231,15 @@ def _ev(sv, env):
         if sv[1] == "cast":
             return args[1]
         return {"min": min, "max": max, "abs": abs, "int": int, "bool": bool}[sv[1]](*args)
+    if t == "call" and isinstance(sv[1], str) and sv[1] in (".find", ".rfind", ".count", ".startswith", ".endswith", ".isascii", ".strip", ".index") and sv[2]:
+        args = [ev(a, env) for a in sv[2] if not (isinstance(a, tuple) and a and a[0] == "kw")]
+        if isinstance(args[0], (bytes, bytearray, str)):
+            try:
+                return getattr(args[0], sv[1][1:])(*args[1:])
+            except (TypeError, ValueError) as e:
+                raise CannotEval(str(e))
+    if t == "call" and sv[1] in ("bytes", "bytearray") and len(sv[2]) == 1:
+        return {"bytes": bytes, "bytearray": bytearray}[sv[1]](ev(sv[2][0], env))
     raise CannotEval(f"leaf/kind {sv[:2]}")
 
 
